@@ -396,6 +396,30 @@ func runC16(r *vk.Run) {
 				c.Fail("", fmt.Sprintf("--step %q accepted as %s (a step must be strictly positive)", b, d), map[string]any{"flag": "step", "value": b, "resolved": d.String()})
 			}
 		}
+		// what one flag accepts is not thereby a value of another: plain seconds are a step, not a --since; a
+		// spelling that has just been resolved for --step is still rejected for --since (and the values that
+		// both accept still mean the same afterwards)
+		for _, b := range []string{"90", "1.5", "0.5", "15", "3600", "2", "0.25"} {
+			if d, err := Cmd.Step(sp(b), start, end); err != nil || d <= 0 {
+				c.Fail("", fmt.Sprintf("valid --step %q rejected or not positive: %v %v", b, d, err), map[string]any{"flag": "step", "value": b})
+			}
+			if s1, e1, err := Cmd.TimeRange(now, nil, nil, sp(b)); err == nil {
+				c.Fail("", fmt.Sprintf("malformed --since %q accepted (range %s) after the same spelling had been given as --step", b, e1.Sub(s1)), map[string]any{"flag": "since", "value": b})
+			}
+			c.Eval(2)
+			c.Count("malformed_rejected_checks", 1)
+			c.Count("cross_flag_spellings", 1)
+		}
+		for _, b := range []string{"90s", "2m", "1h30m"} {
+			d1, err1 := Cmd.Step(sp(b), start, end)
+			s1, e1, err2 := Cmd.TimeRange(now, nil, nil, sp(b))
+			d2, err3 := Cmd.Step(sp(b), start, end)
+			if err1 != nil || err2 != nil || err3 != nil || d1 != d2 || e1.Sub(s1) != d1 {
+				c.Fail("", fmt.Sprintf("duration %q: step %v (%v), since range %v (%v), step again %v (%v)", b, d1, err1, e1.Sub(s1), err2, d2, err3), map[string]any{"value": b})
+			}
+			c.Eval(3)
+			c.Count("cross_flag_spellings", 1)
+		}
 		c.R.SetExtra("values_passed_through_real_flag_objects", CmdViaFlags.Load())
 		c.Nontrivial("malformed")
 		c.Sample("malformed", map[string]any{"times": badTimes, "durations": badDur, "steps": badStep})
